@@ -93,6 +93,9 @@ def check_bool(name, c, var='result'):
     return c
 
 
+ARG = r'((?:[^(),]|\([^()]*\))+?)'     # one call argument (one level of nested parentheses)
+
+
 def jobs(ctx):
     repo = ctx.repo
     props = ['C09', 'C03', 'C20']
@@ -302,9 +305,9 @@ __CPROVER_ensures(g_st_consumes ==> (g_st_retired == (CORE_POLICY == KP_Managed)
                 job('Consume.dynamic.%s.%s' % (cp[3:], kp[3:]), [b_c2] + b_ci + [b_ci3], src, 'Consume2', ['ST_CONSUME', 'CoreDecRef'])
     # CombinatorCallback::Impl / SingleCombinator::Impl
     b_cb = find_body(repo, F_WHEN, r'void\s+Impl\s*\(\s*InlineCore\s*&\s*caller\s*\)', 'CombinatorCallback::Impl', within=r'struct\s+CombinatorCallback\s+final')
-    pre = [(r'auto\s*&\s*core\s*=\s*DownCast<Core>\(caller\)\s*;', 'Core* core = (Core*)caller;', 0), (r'Index\s*==\s*kDynamicTag', 'IS_DYNAMIC', 0),
-           (r'this\s*-\s*_self->callbacks\.data\(\)', 'CALLBACK_INDEX(self)', 0), (r'Consume<Index>\(\s*_self->st\s*,\s*core\s*\)', 'ConsumeStatic(self, core)', 0),
-           (r'Consume\(\s*_self->st\s*,\s*core\s*,\s*index\s*\)', 'ConsumeDynamic(self, core, index)', 0), (r'_self->DecRef\(\)', 'CombinatorDecRef(self)', 0)]
+    pre = [(r'auto\s*&\s*core\s*=\s*DownCast<Core>\(caller\)\s*;', 'Core* core = (Core*)caller;', 0), (r'DownCast<Core>\(\s*caller\s*\)', '(Core*)caller', 0), (r'Index\s*==\s*kDynamicTag', 'IS_DYNAMIC', 0),
+           (r'this\s*-\s*_self->callbacks\.data\(\)', 'CALLBACK_INDEX(self)', 0), (r'Consume<Index>\(\s*_self->st\s*,\s*%s\s*\)' % ARG, r'ConsumeStatic(self, \1)', 0),
+           (r'Consume\(\s*_self->st\s*,\s*%s\s*,\s*%s\s*\)' % (ARG, ARG), r'ConsumeDynamic(self, \1, \2)', 0), (r'_self->DecRef\(\)', 'CombinatorDecRef(self)', 0)]
     c = Rewriter('CombinatorCallback::Impl', pre=pre, refs=['caller'], nomembers=['_self']).rewrite(b_cb.text)
     cbstubs = '''unsigned g_consumes, g_comb_decrefs; unsigned long g_consume_index; Core* g_consume_core; unsigned char g_decref_after_consume; unsigned long g_my_index;
 #define CALLBACK_INDEX(s) ((long)g_my_index)
@@ -327,8 +330,9 @@ void harness(void) { void* s; void* c; g_consumes = g_comb_decrefs = 0; Impl(s, 
     # SingleCombinator::Impl: the one node serves every input, consumed without index
     def single_impl():
         b_si = find_body(repo, F_WHEN, r'void\s+Impl\s*\(\s*InlineCore\s*&\s*caller\s*\)', 'SingleCombinator::Impl', within=r'struct\s+SingleCombinator\s*:')
-        pre_s = [(r'auto\s*&\s*core\s*=\s*DownCast<Core>\(caller\)\s*;', 'Core* core = (Core*)caller;', 0), (r'Consume<0>\(\s*st\s*,\s*core\s*\)', 'ConsumeStatic(self, core)', 0),
-                 (r'Consume\(\s*st\s*,\s*core\s*,\s*(\w+)\s*\)', r'ConsumeDynamic(self, core, \1)', 0), (r'(?<![\w.>])DecRef\(\)', 'CombinatorDecRef(self)', 0)]
+        pre_s = [(r'auto\s*&\s*core\s*=\s*DownCast<Core>\(caller\)\s*;', 'Core* core = (Core*)caller;', 0), (r'DownCast<Core>\(\s*caller\s*\)', '(Core*)caller', 0),
+                 (r'Consume<0>\(\s*st\s*,\s*%s\s*\)' % ARG, r'ConsumeStatic(self, \1)', 0),
+                 (r'Consume\(\s*st\s*,\s*%s\s*,\s*(\w+)\s*\)' % ARG, r'ConsumeDynamic(self, \1, \2)', 0), (r'(?<![\w.>])DecRef\(\)', 'CombinatorDecRef(self)', 0)]
         c = Rewriter('SingleCombinator::Impl', pre=pre_s, refs=['caller'], nomembers=['st']).rewrite(b_si.text)
         src = COMMON + cbstubs + '''void Impl(void* self, void* caller)
 __CPROVER_requires(g_consumes == 0 && g_comb_decrefs == 0)
@@ -420,7 +424,7 @@ __CPROVER_requires(!g_attach_ok && core == &g_cores[i] && i + 1 == g_attached + 
 __CPROVER_assigns(g_last_consume_i) __CPROVER_ensures(g_last_consume_i == i);
 void CombDecRef(void* self) __CPROVER_requires(g_inline == g_comb_decrefs + 1) __CPROVER_assigns(g_comb_decrefs) __CPROVER_ensures(g_comb_decrefs == OLD(g_comb_decrefs) + 1);
 '''
-    reg_pre = [(r'auto\s*&\s*core\s*=\s*\*\s*begin->GetCore\(\)\.Release\(\)\s*;', 'Core* core = TAKE_INPUT();', 0), (r'\+\+begin\s*;', '', 0),
+    reg_pre = [(r'auto\s*&\s*core\s*=\s*\*\s*begin->GetCore\(\)\.Release\(\)\s*;', 'Core* core = TAKE_INPUT();', 0), (r'\(void\)\s*\+\+begin|\+\+begin|begin\+\+', '(void)0', 0),
                (r'Strategy::kCorePolicy\s*==\s*CorePolicy::(\w+)', r'CORE_POLICY == KP_\1', 0), (r'st\.Register\(\s*(\w+)\s*,\s*core\s*\)', r'Register(self, \1, core)', 0),
                (r'core\.SetCallback\(\s*callbacks\[\s*(\w+)\s*\]\s*\)', r'SetCallbackAt(core, \1)', 0), (r'core\.SetCallback\(\s*\*this\s*\)', 'SetCallbackAt(core, 0)', 0),
                (r'Consume\(\s*st\s*,\s*core\s*,\s*(\w+)\s*\)', r'ConsumeDyn(self, core, \1)', 0), (r'(?<![\w.>])DecRef\(\)', 'CombDecRef(self)', 0)]
